@@ -9,6 +9,8 @@ package main
 import (
 	"bytes"
 	"context"
+	"crypto/sha256"
+	"encoding/hex"
 	"encoding/json"
 	"fmt"
 	"math"
@@ -79,6 +81,31 @@ type argSrc struct {
 	kind int
 	lit  int
 	v    string
+	g    *glit // srcGen
+}
+
+// C05's literal encoding of the source (not absent)
+func (a argSrc) litSexp() sexp.Node {
+	switch a.kind {
+	case srcNull:
+		return sexp.Sym("null")
+	case srcLit:
+		return sexp.T("int", sexp.Int(a.lit))
+	case srcVar:
+		return sexp.T("var", sexp.Str(a.v))
+	}
+	return a.g.sexp()
+}
+
+// the AST below the argument's value
+func (a argSrc) shape() sexp.Node {
+	switch a.kind {
+	case srcVar:
+		return o(o())
+	case srcGen:
+		return a.g.shape()
+	}
+	return o()
 }
 
 func (a argSrc) sexp() sexp.Node {
@@ -101,6 +128,8 @@ func (a argSrc) text() string {
 		return fmt.Sprint(a.lit)
 	case srcVar:
 		return "$" + a.v
+	case srcGen:
+		return a.g.text()
 	}
 	return ""
 }
@@ -110,6 +139,10 @@ type argInfo struct {
 	name    string
 	nonnull bool
 	def     *int // default value, nil: none
+	// generic fields (genargs.go): GraphQL type text, C05 encoding of the type, Go default value
+	typ    string
+	tySexp sexp.Node
+	gdef   interface{}
 }
 
 func (a argInfo) defSexp() sexp.Node {
@@ -119,12 +152,21 @@ func (a argInfo) defSexp() sexp.Node {
 	return sexp.T("int", sexp.Int(*a.def))
 }
 
+// (a DEFAULT SRC) / (a DEFAULT SRC nn)
+func (a argInfo) aform(src argSrc) sexp.Node {
+	if a.nonnull {
+		return sexp.T("a", a.defSexp(), src.sexp(), sexp.Sym("nn"))
+	}
+	return sexp.T("a", a.defSexp(), src.sexp())
+}
+
 type fieldInfo struct {
 	name string
 	ret  string // "" (leaf), "Obj", "I", or a type name of the apifu schema
 	args []argInfo
 	// cost function description given the (a DEFAULT SRC) forms of the arguments, in args order
 	cfd func(a []sexp.Node) sexp.Node
+	gen *genSpec // a generic field (list / input-object arguments): cfd is not used
 }
 
 func ip(i int) *int { return &i }
@@ -158,6 +200,7 @@ func init() {
 	for i, k := range konst {
 		objFields = append(objFields, fieldInfo{name: fmt.Sprintf("k%d", i), ret: "Obj", cfd: constCfd(k[0], k[1])})
 	}
+	objFields = append(objFields, genFields()...)
 	// the interface declares some of the fields again, with DIFFERENT costs and defaults: a selection
 	// made in the scope of I is costed with I's definition
 	// the mutation root: its own definitions (the scope of an operation's top level is its root type)
@@ -243,9 +286,20 @@ type varDecl struct {
 	hasDef  bool
 	defNull bool
 	def     int
+	// generic variables (genargs.go)
+	typ    string
+	tySexp sexp.Node
+	gdef   *glit
 }
 
 func (v varDecl) text() string {
+	if v.typ != "" {
+		s := "$" + v.name + ": " + v.typ
+		if v.hasDef {
+			s += " = " + v.gdef.text()
+		}
+		return s
+	}
 	t := "Int"
 	if v.isBool {
 		t = "Boolean"
@@ -304,6 +358,9 @@ func (d *doc) usedVars(ss []*sel, out map[string]bool, visited map[string]bool) 
 		for _, a := range s.args {
 			if a.kind == srcVar {
 				out[a.v] = true
+			}
+			if a.kind == srcGen {
+				a.g.vars(out)
 			}
 		}
 		for _, x := range s.dirs {
@@ -477,20 +534,27 @@ func selNode(s *sel) sexp.Node {
 			kids = append(kids, o())
 		}
 		kids = append(kids, o()) // Name
-		var argForms []sexp.Node
+		var argForms, genDefs, genArgs []sexp.Node
 		if fi != nil {
 			for j, ai := range fi.args {
 				src := argSrc{}
 				if j < len(s.args) {
 					src = s.args[j]
 				}
-				argForms = append(argForms, sexp.T("a", ai.defSexp(), src.sexp()))
-				if src.kind != srcAbsent {
-					val := o()
-					if src.kind == srcVar {
-						val = o(o())
+				if fi.gen != nil {
+					dflt := sexp.None()
+					if ai.gdef != nil {
+						dflt = sexp.Some(goValSexp(ai.gdef, "map"))
 					}
-					kids = append(kids, o(o(), val)) // Argument: Name, Value
+					genDefs = append(genDefs, sexp.L(sexp.Str(ai.name), ai.tySexp, dflt))
+					if src.kind != srcAbsent {
+						genArgs = append(genArgs, sexp.L(sexp.Str(ai.name), src.litSexp()))
+					}
+				} else {
+					argForms = append(argForms, ai.aform(src))
+				}
+				if src.kind != srcAbsent {
+					kids = append(kids, o(o(), src.shape())) // Argument: Name, Value
 				}
 			}
 		}
@@ -506,6 +570,10 @@ func selNode(s *sel) sexp.Node {
 		}
 		if fi == nil {
 			return sexp.T("u", kids...)
+		}
+		if fi.gen != nil {
+			cfd := sexp.T("gen", sexp.L(genDefs...), sexp.L(genArgs...), fi.gen.r, fi.gen.m, fi.gen.setc)
+			return sexp.T("f", append([]sexp.Node{cfd}, kids...)...)
 		}
 		return sexp.T("f", append([]sexp.Node{fi.cfd(argForms)}, kids...)...)
 	case kInline:
@@ -531,7 +599,7 @@ func (d *doc) opsSexp() sexp.Node {
 		if op.name != "" {
 			name = sexp.Some(sexp.Str(op.name))
 		}
-		var vds, kids []sexp.Node
+		var vds, xvds, kids []sexp.Node
 		if !op.shorthand {
 			kids = append(kids, o()) // OperationType
 			if op.name != "" {
@@ -539,15 +607,28 @@ func (d *doc) opsSexp() sexp.Node {
 			}
 			for _, v := range d.opVars(op) {
 				typ := o(o()) // NamedType -> Name
+				if v.typ == "[Int]" {
+					typ = o(typ) // ListType
+				}
 				if v.nonnull {
 					typ = o(typ)
 				}
 				vk := []sexp.Node{o(o()), typ}
 				if v.hasDef {
-					vk = append(vk, o())
+					if v.typ != "" {
+						vk = append(vk, v.gdef.shape())
+					} else {
+						vk = append(vk, o())
+					}
 				}
 				kids = append(kids, o(vk...))
-				if !v.isBool {
+				if v.typ != "" {
+					dflt := sexp.None()
+					if v.hasDef {
+						dflt = sexp.Some(v.gdef.sexp())
+					}
+					xvds = append(xvds, sexp.L(sexp.Str(v.name), v.tySexp, dflt))
+				} else if !v.isBool {
 					def := sexp.Sym("none")
 					if v.hasDef {
 						if v.defNull {
@@ -561,7 +642,7 @@ func (d *doc) opsSexp() sexp.Node {
 			}
 		}
 		kids = append(kids, selSetNode(op.kids))
-		out = append(out, sexp.T("op", name, sexp.L(vds...), o(kids...)))
+		out = append(out, sexp.T("op", name, sexp.L(vds...), o(kids...), sexp.L(xvds...)))
 	}
 	return sexp.L(out...)
 }
@@ -753,16 +834,21 @@ func buildDirectSchema() *graphql.Schema {
 	mk := func(scope string, fs []fieldInfo) map[string]*graphql.FieldDefinition {
 		out := map[string]*graphql.FieldDefinition{}
 		for _, f := range fs {
-			def := &graphql.FieldDefinition{Type: typeOf(f.ret), Cost: costFn(scope, f.name)}
+			def := &graphql.FieldDefinition{Type: typeOf(f.ret)}
+			if f.gen != nil {
+				def.Cost = genCostFn(f.name)
+			} else {
+				def.Cost = costFn(scope, f.name)
+			}
 			if len(f.args) > 0 {
 				def.Arguments = map[string]*graphql.InputValueDefinition{}
 				for _, a := range f.args {
-					iv := &graphql.InputValueDefinition{Type: graphql.IntType}
-					if a.nonnull {
-						iv.Type = graphql.NewNonNullType(graphql.IntType)
-					}
+					iv := &graphql.InputValueDefinition{Type: argType(a)}
 					if a.def != nil {
 						iv.DefaultValue = *a.def
+					}
+					if a.gdef != nil {
+						iv.DefaultValue = a.gdef
 					}
 					def.Arguments[a.name] = iv
 				}
@@ -828,7 +914,7 @@ func (g *gen) alias() string {
 func (g *gen) intVars(nonnullOnly bool) []string {
 	var out []string
 	for _, v := range g.vars {
-		if !v.isBool && (!nonnullOnly || v.nonnull) {
+		if !v.isBool && v.typ == "" && (!nonnullOnly || v.nonnull) {
 			out = append(out, v.name)
 		}
 	}
@@ -901,6 +987,10 @@ func (g *gen) field(scope string, depth int, fragFrom int) *sel {
 	}
 	s := &sel{kind: kField, scope: scope, name: fi.name, alias: g.alias(), dirs: g.dirs()}
 	for _, a := range fi.args {
+		if fi.gen != nil {
+			s.args = append(s.args, g.genSrc(a))
+			continue
+		}
 		var vals []int
 		switch fi.name {
 		case "t":
@@ -1000,6 +1090,7 @@ func genDoc(r *rng.R, hostile bool) *doc {
 		{name: "v4", nonnull: true, hasDef: true, def: 2},
 		{name: "b0", isBool: true, hasDef: true},
 	}
+	g.vars = append(g.vars, genericVars()...)
 	nf := rng.Pick(r, []int{0, 0, 1, 2, 3, 4})
 	for i := 0; i < nf; i++ {
 		g.frags = append(g.frags, fragDef{name: fmt.Sprintf("F%d", i), cond: rng.Pick(r, []string{"Obj", "Obj", "I"})})
@@ -1070,6 +1161,12 @@ func genVars(r *rng.R, d *doc, hostile bool) map[string]interface{} {
 			}
 			continue
 		}
+		if v.typ != "" {
+			if val, ok := genericValue(r, v, hostile); ok {
+				vals[v.name] = val
+			}
+			continue
+		}
 		x := r.Intn(10)
 		switch {
 		case v.nonnull && !v.hasDef:
@@ -1099,6 +1196,9 @@ func genVars(r *rng.R, d *doc, hostile bool) map[string]interface{} {
 func varsSexp(vals map[string]interface{}) sexp.Node {
 	var names []string
 	for n := range vals {
+		if strings.HasPrefix(n, "l") || strings.HasPrefix(n, "o") {
+			continue // generic variables: xvars
+		}
 		names = append(names, n)
 	}
 	sort.Strings(names)
@@ -1207,7 +1307,8 @@ func directCase(d *doc, opName string, vars map[string]interface{}, dc graphql.F
 		sexp.T("default", sexp.Int(dc.Resolver), sexp.Int(dc.Multiplier)),
 		sexp.T("table", tableSexp()), sexp.T("opname", sexp.Str(opName)), sexp.T("vars", varsSexp(vars)),
 		sexp.T("ops", d.opsSexp()), sexp.T("frags", d.fragsSexp()), sexp.T("max", zint(max)),
-		sexp.T("conns", sexp.L()), sexp.T("observed", observed), sexp.T("std", sexp.Int(std)), sexp.T("query", sexp.Str(q)))
+		sexp.T("conns", sexp.L()), sexp.T("observed", observed), sexp.T("std", sexp.Int(std)),
+		sexp.T("env", envSexp()), sexp.T("xvars", xvarsSexp(d, vars)), sexp.T("query", sexp.Str(q)))
 }
 
 var defaultCosts = []graphql.FieldCost{{Resolver: 1}, {Resolver: 1}, {}, {Resolver: 2, Multiplier: 2}, {Resolver: 0, Multiplier: 1 << 31}, {Resolver: maxInt}}
@@ -1490,9 +1591,43 @@ func (a *apiUnderTest) overWS(query string, vars map[string]interface{}, opName 
 	}
 }
 
+// persisted-query storage (Config.PersistedQueryStorage): requests without the extension are not affected
+type pqStore struct {
+	mu sync.Mutex
+	m  map[string]string
+}
+
+func (p *pqStore) GetPersistedQuery(ctx context.Context, hash []byte) string {
+	p.mu.Lock()
+	defer p.mu.Unlock()
+	return p.m[string(hash)]
+}
+func (p *pqStore) PersistQuery(ctx context.Context, query string, hash []byte) {
+	p.mu.Lock()
+	defer p.mu.Unlock()
+	p.m[string(hash)] = query
+}
+
+// one POST to ServeGraphQL
+func (a *apiUnderTest) post(payload map[string]interface{}) (data interface{}, nerrs int, raw string) {
+	body, _ := json.Marshal(payload)
+	hr := httptest.NewRequest("POST", "/graphql", bytes.NewReader(body))
+	hr.Header.Set("Content-Type", "application/json")
+	w := httptest.NewRecorder()
+	a.api.ServeGraphQL(w, hr)
+	var resp struct {
+		Data   interface{}
+		Errors []interface{}
+	}
+	if err := json.Unmarshal(w.Body.Bytes(), &resp); err != nil {
+		panic(err)
+	}
+	return resp.Data, len(resp.Errors), w.Body.String()
+}
+
 func buildAPI(dc graphql.FieldCost) *apiUnderTest {
 	a := &apiUnderTest{}
-	cfg := &apifu.Config{DefaultFieldCost: dc}
+	cfg := &apifu.Config{DefaultFieldCost: dc, PersistedQueryStorage: &pqStore{m: map[string]string{}}}
 	item := &graphql.ObjectType{Name: "Item", Fields: map[string]*graphql.FieldDefinition{}}
 	item.Fields["id"] = &graphql.FieldDefinition{Type: graphql.IntType, Resolve: func(ctx graphql.FieldContext) (interface{}, error) { return ctx.Object, nil }}
 	item.Fields["w"] = &graphql.FieldDefinition{Type: graphql.IntType, Cost: graphql.FieldResolverCost(2), Resolve: func(ctx graphql.FieldContext) (interface{}, error) { return 2, nil }}
@@ -1743,7 +1878,7 @@ func walkConns(ss []*sel, data interface{}, out *[]sexp.Node) {
 				fi := apiFieldInfo(s.scope, s.name)
 				var forms []sexp.Node
 				for j, ai := range fi.args {
-					forms = append(forms, sexp.T("a", ai.defSexp(), s.args[j].sexp()))
+					forms = append(forms, ai.aform(s.args[j]))
 				}
 				absent := sexp.T("a", sexp.Sym("none"), sexp.Sym("absent"))
 				first, last := absent, absent
@@ -1804,6 +1939,8 @@ func apiCase(r *rng.R, apis []*apiUnderTest, dcs []graphql.FieldCost) sexp.Node 
 	route := "apifu"
 	if r.Chance(1, 6) {
 		route = "apifu-ws"
+	} else if r.Chance(1, 5) {
+		route = "apifu-pq"
 	}
 	a.reset()
 	var observed sexp.Node
@@ -1841,6 +1978,15 @@ func apiCase(r *rng.R, apis []*apiUnderTest, dcs []graphql.FieldCost) sexp.Node 
 		if route == "apifu-ws" {
 			a.reset()
 			data, ne = a.overWS(q, vars, "Q")
+		}
+		if route == "apifu-pq" {
+			// Apollo persisted queries: register the query with its hash, then send the hash alone;
+			// the cost observed is that of the request served from the store
+			sum := sha256.Sum256([]byte(q))
+			ext := map[string]interface{}{"persistedQuery": map[string]interface{}{"version": 1, "sha256Hash": hex.EncodeToString(sum[:])}}
+			a.post(map[string]interface{}{"query": q, "variables": vars, "operationName": "Q", "extensions": ext})
+			a.reset()
+			data, ne, _ = a.post(map[string]interface{}{"variables": vars, "operationName": "Q", "extensions": ext})
 		}
 		if ran, cost := a.seen(); ran {
 			observed = sexp.L(sexp.Int(0), actualSexp(cost), sexp.Int(0), actualSexp(cost))
